@@ -2,10 +2,14 @@
    ExtrOcamlBasic only (bool, option, unit, list, prod, sumbool, sumor -> OCaml's own types);
    N, Z, positive, nat stay the extracted inductive types.  No Extract Constant. *)
 From Coq Require Import Extraction ExtrOcamlBasic.
-From BedV Require Import Base LapperModel.
+From BedV Require Import Base LapperModel AlgebraModel GMapModel.
 Extraction Language OCaml.
 Extraction "model.ml"
   (* numbers *) N.of_nat N.to_nat N.add N.mul N.sub N.div N.modulo N.eqb N.ltb N.leb N.compare
   Z.of_N Z.to_N Z.add Z.opp Z.ltb Z.eqb Z.compare
   (* lapper *) lnew linsert lmerge lset_cov lcov lfind lseek lcount lcount_orig
-  lunion_intersect ldepth.
+  lunion_intersect ldepth
+  (* algebra *) blen bcompare boverlap bn_overlap split_by_len rsplit_by_len merge_groups merge_sorted_bed merge_sorted_bedgraph
+  (* maps and coverage *) gcollect ginsert gfind gis_overlapped glen giter
+  iset_new iset_len iset_get iset_find_full iset_find_index iset_find imap_new imap_find
+  cov_new cov_step scov_step smap_as_vec bcov_new bcov_step bcov_regions sbcov_new sbcov_step sb_get_region sb_get_chrom smap_get.
